@@ -42,6 +42,39 @@ def single_shortcut(t, ev, absval=False):
     return e["?some"] == ("Ok", ea)
 
 
+def minmax_fold(ev, ctor, t):
+    """(ok, detail): the Min/Max arm term t is the minimum/maximum fold of its evaluator's value type"""
+    ok, detail = False, "UNRECOGNISED fold: " + T.show(t)[:300]
+    e = M(("if", ("op", "gt", "usize", LEN, ("lit", "1", "usize")), "?fold", "?single"), t)
+    if e is not None:
+        fold, single = e["?fold"], e["?single"]
+        okS = single_shortcut(single, ev)
+        if ev != "eval_number":
+            fn = MINFN[ev] if ctor == "Min" else MAXFN[ev]
+            seeds = MIN_SEEDS[ev] if ctor == "Min" else MAX_SEEDS[ev]
+            f = M(("seq", ("let", "?m", "?seed"), ("for", ("bind", "?x"), ITER, ("set", ("var", "?m"), ("call", fn, "?p", "?q"))), ("Ok", ("var", "?m"))), fold)
+            if f is not None:
+                args = {f["?p"], f["?q"]}
+                okstep = args == {("ev", ("var", f["?x"])), ("var", f["?m"])}
+                okseed = any(f["?seed"][:2] == s[:2] and (s[2] is None or f["?seed"][2] == s[2]) for s in seeds)
+                ok = okstep and okseed and okS
+                detail = "step %s(%s), seed %s%s%s" % (fn, ", ".join(T.show(x) for x in (f["?p"], f["?q"])), T.show(f["?seed"]), "" if okseed else " -- seed is not the identity of the step (it absorbs every argument)", "" if okS else " -- single-argument shortcut is not eval(arg)")
+            else:
+                g = M(("seq", ("let", "?m", "?seed"), ("for", ("bind", "?x"), ITER, "?body"), ("Ok", ("var", "?m"))), fold)
+                if g is not None:
+                    detail = "step is not %s(acc, x): %s" % (fn, T.show(g["?body"])[:200])
+        else:
+            op = "lt" if ctor == "Min" else "gt"
+            body = ("match", ("var", "?m"),
+                    (("pvar", "Option::Some", ("bind", "?l")), ("if", ("op", "?cmp", "f64", as_f64(("var", "?l"), "1"), as_f64(("ev", ("var", "?x")), "2")), ("set", ("var", "?m"), ("Some", ("var", "?l"))), ("set", ("var", "?m"), ("Some", ("ev", ("var", "?x")))))),
+                    (("pvar", "Option::None"), ("set", ("var", "?m"), ("Some", ("ev", ("var", "?x"))))))
+            f = M(("seq", ("let", "?m", ("None",)), ("for", ("bind", "?x"), ITER, body), ("Ok", ("call", "Option::unwrap", ("var", "?m")))), fold)
+            if f is not None:
+                ok = f["?cmp"] in ((op, op + "e") if False else (op, "le" if op == "lt" else "ge")) and okS
+                detail = "keeps the accumulator when acc %s x on the operands' double values (needs %s)" % (f["?cmp"], op)
+    return ok, detail
+
+
 def main(tier):
     run, F, models = setup(PID, tier, LEVEL)
     run.trusted = ["min/max of the value type are commutative, associative, with the stated identity; f64::min/max ignore no finite argument", "sort with a total ascending comparator sorts",
@@ -69,34 +102,7 @@ def main(tier):
             bad = [s for s in subterms(t) if isinstance(s, tuple) and len(s) == 3 and s[0] == "call" and s[1] in ("Result::unwrap", "Result::expect", "Result::unwrap_or", "Result::unwrap_or_default", "Result::ok") and isinstance(s[2], tuple) and s[2][:2] == ("call", "Ast.eval")]
             run.ob(not bad, "propagate|" + key, "C11 an argument that fails to evaluate makes the aggregate return Err", where_, T.show(bad[0])[:120] if bad else "")
             if ctor in ("Min", "Max"):
-                ok, detail = False, "UNRECOGNISED fold: " + T.show(t)[:300]
-                e = M(("if", ("op", "gt", "usize", LEN, ("lit", "1", "usize")), "?fold", "?single"), t)
-                if e is not None:
-                    fold, single = e["?fold"], e["?single"]
-                    okS = single_shortcut(single, ev)
-                    if ev != "eval_number":
-                        fn = MINFN[ev] if ctor == "Min" else MAXFN[ev]
-                        seeds = MIN_SEEDS[ev] if ctor == "Min" else MAX_SEEDS[ev]
-                        f = M(("seq", ("let", "?m", "?seed"), ("for", ("bind", "?x"), ITER, ("set", ("var", "?m"), ("call", fn, "?p", "?q"))), ("Ok", ("var", "?m"))), fold)
-                        if f is not None:
-                            args = {f["?p"], f["?q"]}
-                            okstep = args == {("ev", ("var", f["?x"])), ("var", f["?m"])}
-                            okseed = any(f["?seed"][:2] == s[:2] and (s[2] is None or f["?seed"][2] == s[2]) for s in seeds)
-                            ok = okstep and okseed and okS
-                            detail = "step %s(%s), seed %s%s%s" % (fn, ", ".join(T.show(x) for x in (f["?p"], f["?q"])), T.show(f["?seed"]), "" if okseed else " -- seed is not the identity of the step (it absorbs every argument)", "" if okS else " -- single-argument shortcut is not eval(arg)")
-                        else:
-                            g = M(("seq", ("let", "?m", "?seed"), ("for", ("bind", "?x"), ITER, "?body"), ("Ok", ("var", "?m"))), fold)
-                            if g is not None:
-                                detail = "step is not %s(acc, x): %s" % (fn, T.show(g["?body"])[:200])
-                    else:
-                        op = "lt" if ctor == "Min" else "gt"
-                        body = ("match", ("var", "?m"),
-                                (("pvar", "Option::Some", ("bind", "?l")), ("if", ("op", "?cmp", "f64", as_f64(("var", "?l"), "1"), as_f64(("ev", ("var", "?x")), "2")), ("set", ("var", "?m"), ("Some", ("var", "?l"))), ("set", ("var", "?m"), ("Some", ("ev", ("var", "?x")))))),
-                                (("pvar", "Option::None"), ("set", ("var", "?m"), ("Some", ("ev", ("var", "?x"))))))
-                        f = M(("seq", ("let", "?m", ("None",)), ("for", ("bind", "?x"), ITER, body), ("Ok", ("call", "Option::unwrap", ("var", "?m")))), fold)
-                        if f is not None:
-                            ok = f["?cmp"] in ((op, op + "e") if False else (op, "le" if op == "lt" else "ge")) and okS
-                            detail = "keeps the accumulator when acc %s x on the operands' double values (needs %s)" % (f["?cmp"], op)
+                ok, detail = minmax_fold(ev, ctor, t)
                 run.ob(ok, "fold|" + key, "C11 %s is a fold with the %s step seeded with its identity (or the first element); one argument: its value" % (ctor.lower(), "minimum" if ctor == "Min" else "maximum"), where_, detail,
                        sample={"evaluator": ev, "aggregate": ctor, "schema": detail[:120]})
             elif ctor == "Avg":
